@@ -265,11 +265,12 @@ Definition default_options : options := {| o_recursion_limit := 64; o_debug := t
 Definition main_module (cards : list card) : module :=
   Module [] [(s_main, {| f_args := []; f_cards := cards |})] [].
 
-(* A-23: `main = [StringLiteral("L" x 253)]` compiles; the result is well-formed except that
-   read_str's window cannot read the literal back *)
+(* A-23 (repaired in /repo by "string literals longer than 252 bytes can be read at run time"):
+   `main = [StringLiteral("L" x 253)]` compiles into a program that is well-formed for a reader
+   without window and ill-formed for the former reader with the MAX_STR_LEN window *)
 Definition a23_module : module := main_module [CStringLiteral (repeat 76%N 253)].
 Lemma a23_witness :
-  exists B, compile a23_module default_options = COk B /\ wellformed_gen false B /\ ~ wellformed B.
+  exists B, compile a23_module default_options = COk B /\ wellformed_gen false B /\ ~ wellformed_gen true B.
 Proof.
   destruct (compile a23_module default_options) as [B| | |] eqn:E; try (vm_compute in E; discriminate).
   exists B. split; [reflexivity|]. split.
@@ -281,16 +282,16 @@ Proof.
     + destruct Hw as (is' & Hd' & _). congruence.
 Qed.
 
-(* A-24: `main = [SetVar x := 1; Closure([], [ReadVar x])]` - x is captured, so scope_end emits
-   CloseUpvalue, which gets no trace entry *)
+(* A-24 (repaired in /repo by "the Pop / CloseUpvalue instructions emitted at scope end get a trace
+   entry"): `main = [SetVar x := 1; Closure([], [ReadVar x])]` - x is captured, scope_end emits
+   CloseUpvalue; every instruction of the result now has a trace entry *)
 Definition a24_module : module :=
   main_module [CSetVar [120%N] (CScalarInt 1); CClosure [] [CReadVar [120%N]]].
-Lemma a24_witness :
-  exists B, compile a24_module default_options = COk B /\ wellformed B /\ ~ trace_complete B.
+Lemma a24_repaired :
+  exists B, compile a24_module default_options = COk B /\ wellformed B /\ trace_complete B.
 Proof.
   destruct (compile a24_module default_options) as [B| | |] eqn:E; try (vm_compute in E; discriminate).
   exists B. split; [reflexivity|]. split.
   - apply wf_check_sound. vm_compute in E. injection E as <-. vm_compute. reflexivity.
-  - intros Ht. apply trace_complete_check_complete in Ht.
-    vm_compute in E. injection E as <-. vm_compute in Ht. discriminate.
+  - apply trace_complete_check_sound. vm_compute in E. injection E as <-. vm_compute. reflexivity.
 Qed.
